@@ -1,27 +1,29 @@
 (** The C11 statements assembled from the Layout* lemma files. *)
 From Rocfl Require Import Base.Bytes Generated.Consts Model.Layout Model.LayoutSpec Model.KnownC11
-  Proofs.BytesFacts Proofs.LayoutFacts Proofs.LayoutMapFacts Proofs.LayoutPrefixFacts Proofs.LayoutOmitFacts
-  Proofs.LayoutCfgFacts.
+  Proofs.BytesFacts Proofs.LayoutFacts Proofs.LayoutMapFacts Proofs.LayoutPrefixFacts Proofs.LayoutCaseFacts
+  Proofs.LayoutOmitFacts Proofs.LayoutCfgFacts.
 From Coq Require Import ZArith Lia ZifyBool ZifyN ZifyNat.
 Open Scope N_scope.
 
 Lemma inputs_ok_inv c id dg : inputs_ok c id dg = true ->
   ustr_wf id = true /\ ustr_wf (c_delim c) = true /\ digest_ok c dg = true.
 Proof.
-  unfold inputs_ok. intros H. apply andb_true_iff in H as [H H3]. apply andb_true_iff in H as [H1 H2]. auto.
+  unfold inputs_ok. intros H. apply andb_true_iff in H as [H _].
+  apply andb_true_iff in H as [H H3]. apply andb_true_iff in H as [H1 H2]. auto.
 Qed.
 
-(** the only class of ids left out (known finding c11-casefold-index) *)
-Lemma known_c11_inv c id : known_c11 c id = false -> c11_casefold c id = false.
-Proof. unfold known_c11. exact (fun H => H). Qed.
+(** the conditions on the case information matter for 0006 and 0007 only *)
+Lemma inputs_ok_case c id dg : inputs_ok c id dg = true -> case_info_ok c id = true.
+Proof. unfold inputs_ok. intros H. now apply andb_true_iff in H as [_ H]. Qed.
 
-Theorem map_correct c id dg :
-  cfg_ok c = true -> inputs_ok c id dg = true -> known_c11 c id = false ->
+(** all five extensions, every validated configuration, every id: no class is left out *)
+Theorem map_is_spec c id dg :
+  cfg_ok c = true -> inputs_ok c id dg = true ->
   refusal (Layout.map c id dg) = LayoutSpec.map c id dg.
 Proof.
-  intros Hok Hin Hk.
+  intros Hok Hin.
   destruct (inputs_ok_inv _ _ _ Hin) as (W1 & W2 & W3).
-  pose proof (known_c11_inv _ _ Hk) as K2.
+  pose proof (inputs_ok_case _ _ _ Hin) as CI. unfold case_info_ok in CI.
   destruct (c_ext c) eqn:E.
   - now apply map_0002_correct.
   - now apply map_0003_correct.
@@ -30,22 +32,60 @@ Proof.
   - now apply map_0007_correct.
 Qed.
 
+(** the same statement in the shape Proofs/FootprintLayout.v (property C12) still uses:
+    [known_c11] is constantly false (Model/KnownC11.v), the third hypothesis is idle *)
+Theorem map_correct c id dg :
+  cfg_ok c = true -> inputs_ok c id dg = true -> known_c11 c id = false ->
+  refusal (Layout.map c id dg) = LayoutSpec.map c id dg.
+Proof. intros Hok Hin _. now apply map_is_spec. Qed.
+
 (** an id the documents cannot map is never mapped to some path *)
 Lemma unmappable_refused c id dg :
-  cfg_ok c = true -> inputs_ok c id dg = true -> known_c11 c id = false ->
+  cfg_ok c = true -> inputs_ok c id dg = true ->
   LayoutSpec.map c id dg = Err -> forall p, Layout.map c id dg <> Ok p.
 Proof.
-  intros Hok Hin Hk HE p HP. pose proof (map_correct c id dg Hok Hin Hk) as M.
+  intros Hok Hin HE p HP. pose proof (map_is_spec c id dg Hok Hin) as M.
   rewrite HP, HE in M. discriminate.
 Qed.
 
 (** and an id the documents map is mapped, to that path *)
 Lemma mappable_mapped c id dg p :
-  cfg_ok c = true -> inputs_ok c id dg = true -> known_c11 c id = false ->
+  cfg_ok c = true -> inputs_ok c id dg = true ->
   LayoutSpec.map c id dg = Ok p -> Layout.map c id dg = Ok p.
 Proof.
-  intros Hok Hin Hk HE. pose proof (map_correct c id dg Hok Hin Hk) as M.
+  intros Hok Hin HE. pose proof (map_is_spec c id dg Hok Hin) as M.
   rewrite HE in M. destruct (Layout.map c id dg); cbn in M; congruence.
+Qed.
+
+(** map_object_id itself has no error channel *)
+Lemma map_never_err c id dg : Layout.map c id dg <> Err.
+Proof.
+  assert (SF : forall s a, str_from s a <> Err).
+  { intros s a. unfold str_from, str_slice. destruct (_ && _); discriminate. }
+  assert (TL : forall v size n i, to_tuples_loop v size n i <> Err).
+  { intros v size n. induction n as [|n IH]; intros i; cbn [to_tuples_loop]; [discriminate|].
+    unfold str_slice. destruct (_ && _); cbn [res_bind]; [|discriminate].
+    specialize (IH (i + 1)). destruct (to_tuples_loop v size n (i + 1)); cbn [res_bind]; congruence. }
+  assert (TT : forall v size n, to_tuples v size n <> Err).
+  { intros v size n. unfold to_tuples. destruct (_ && _); [discriminate|apply TL]. }
+  assert (S7 : forall d x, strip_prefix d x <> Err).
+  { intros d x. unfold strip_prefix. destruct (rfind _ _); [|discriminate].
+    destruct (_ =? _); [discriminate|apply SF]. }
+  unfold Layout.map. destruct (c_ext c).
+  - discriminate.
+  - unfold map_0003. specialize (TT dg (c_ts c) (c_nt c)).
+    destruct (to_tuples dg (c_ts c) (c_nt c)); cbn [res_bind]; try congruence.
+    destruct (_ <=? _); [discriminate|]. unfold str_to, str_slice. destruct (_ && _); discriminate.
+  - unfold map_0004. destruct (c_ts c =? 0); [discriminate|]. specialize (TT dg (c_ts c) (c_nt c)).
+    destruct (to_tuples dg (c_ts c) (c_nt c)); cbn [res_bind]; try congruence.
+    destruct (c_short c); [|discriminate]. specialize (SF dg (c_ts c * c_nt c)).
+    destruct (str_from dg (c_ts c * c_nt c)); cbn [res_bind]; congruence.
+  - unfold map_0006, strip_prefix_0006. destruct (find_0006 _ _) as [[i l]|]; [|discriminate].
+    destruct (_ =? _); [discriminate|apply SF].
+  - unfold map_0007. destruct (negb _); [discriminate|]. unfold map_0007_mapped.
+    specialize (S7 (c_delim c) id). destruct (strip_prefix (c_delim c) id) as [r| |]; cbn [res_bind]; try congruence.
+    match goal with |- context [to_tuples ?v ?a ?n] => specialize (TT v a n); destruct (to_tuples v a n) end;
+      cbn [res_bind]; congruence.
 Qed.
 
 (** to_tuples: n tuples of exactly [size] characters that spell the first n*size
